@@ -2,6 +2,8 @@
 # usage: tools/sweep.sh <tier> <seed>... ; runs every registered check at the given seeds from this tree
 cd "$(dirname "$0")/.." || exit 2
 TIER=$1; shift
+# a frozen snapshot of /repo when started with: vp run --with-repo -- ./tools/sweep.sh ...
+[ -n "$VP_RUN_REPO" ] && export VERIF_REPO="$VP_RUN_REPO"
 for s in "$@"; do
   for id in $(jq -r '.checks[].property_id' MANIFEST.json); do
     st=$(date +%s)
